@@ -398,6 +398,13 @@ def c13_4(ctx: Ctx) -> RuleResult:
                 for i, e in enumerate(tg.elts):
                     if isinstance(e, ast.Subscript) and isinstance(e.slice, ast.Constant) and isinstance(e.slice.value, str):
                         kstores.setdefault(e.slice.value, []).append((n, _project(vt, (i,))))
+    # ... or out-of-place: `diffs = diffs | {"<family>_lower": lower, "<family>_upper": upper}`
+    from ..util import stmt_of
+
+    for d_ in nodes_in(m, ast.Dict):
+        for k_, v_ in zip(d_.keys, d_.values):
+            if isinstance(k_, ast.Constant) and isinstance(k_.value, str):
+                kstores.setdefault(k_.value, []).append((stmt_of(d_), X.value_at(m, v_)))
     for fam, (tr, meth) in table.items():
         sides = []
         for i, side in enumerate(("lower", "upper")):
